@@ -15,6 +15,7 @@
 #include "seams/reader.h"
 #include "seams/vfhost.h"
 #include "ref/reflex.h"
+#include "gen/damage.h"
 #include <blocc/bloc_capi.h>
 #include <map>
 #include <set>
@@ -127,22 +128,7 @@ struct C11 : Profile {
     return pick;
   }
 
-  static std::string damage(Rng& r, const std::string& q, int kind, size_t k, std::string& desc) {
-    RefLexResult lx = reflex(q);
-    if (lx.tokens.empty()) { desc = "empty"; return q + " end;"; }
-    k %= lx.tokens.size();
-    const RefToken& t = lx.tokens[k];
-    switch (kind) {
-    case 0: desc = "truncate before token #" + std::to_string(k) + " '" + printable(t.text, 20) + "'"; return q.substr(0, t.pos);
-    case 1: desc = "delete token #" + std::to_string(k) + " '" + printable(t.text, 20) + "'"; return q.substr(0, t.pos) + q.substr(t.end);
-    case 2: desc = "duplicate token #" + std::to_string(k) + " '" + printable(t.text, 20) + "'"; return q.substr(0, t.end) + " " + t.text + q.substr(t.end);
-    case 3: { static const char* repl[] = {"\"str\"", "42", "1.5", "end", "loop", "then", "(", ")", "@", "xx9", "=", ";", "function", "begin", "exception", "when", "tab", "true"}; std::string w = repl[r.below(18)]; desc = "replace token #" + std::to_string(k) + " '" + printable(t.text, 20) + "' by '" + w + "'"; return q.substr(0, t.pos) + w + q.substr(t.end); }
-    case 4: { if (k + 1 >= lx.tokens.size()) { desc = "truncate at end"; return q.substr(0, t.pos); } const RefToken& u = lx.tokens[k + 1]; desc = "swap tokens #" + std::to_string(k) + " and next"; return q.substr(0, t.pos) + u.text + " " + t.text + q.substr(u.end); }
-    case 5: { static const char* ins[] = {"end;", "end loop;", "end if;", "begin", ")", "(", "exception", "when others then", "loop", "return;;", "else"}; std::string w = ins[r.below(11)]; desc = "insert '" + w + "' before token #" + std::to_string(k); return q.substr(0, t.pos) + w + " " + q.substr(t.pos); }
-    case 6: desc = "EOF inside a string after token #" + std::to_string(k); return q.substr(0, t.end) + " s0 = \"unterminated";
-    default: desc = "EOF inside a comment after token #" + std::to_string(k); return q.substr(0, t.end) + " /* unterminated";
-    }
-  }
+  static std::string damage(Rng& r, const std::string& q, int kind, size_t k, std::string& desc) { return damage_text(r, q, kind, k, desc); }
 
   json generate(uint64_t vseed, uint64_t runno, const std::string& tier) override {
     const uint64_t gsz = tier == "thorough" ? 256 : 32;
